@@ -304,6 +304,9 @@ func runC15(tier string, rep *Report) {
 			}
 		}
 	}
+	helloForms, helloViol := runC15HelloForms(rep)
+	rep.Coverage["hello_forms_checked"] = helloForms
+	rep.Coverage["hello_form_violations"] = helloViol
 	keys := make([]string, 0, len(shapes))
 	for k := range shapes {
 		keys = append(keys, k)
@@ -370,4 +373,121 @@ func firstWord(s string) string {
 		f = f[:6]
 	}
 	return strings.Join(f, "_")
+}
+
+// runC15HelloForms: a HELLO that is refused changes NOTHING, a HELLO that is accepted changes
+// everything it names - judged from the reply alone, so that it holds whatever the emulator decides
+// to accept (names with spaces, AUTH clauses ...): for every form x protocol spoken before x name set
+// before x a second connection in either protocol. What the connection speaks is read off the shape
+// of HGETALL (map / flat array) and of a double (HINCRBYFLOAT is a bulk string in both; CLIENT INFO
+// resp=), the name from CLIENT GETNAME.
+func runC15HelloForms(rep *Report) (forms, bad int) {
+	var list [][]string
+	for _, v := range []string{"2", "3"} {
+		list = append(list, []string{"HELLO", v})
+		for _, name := range []string{"ok", "bad name", "bad\nname", "tab\tname", "", "nul\x00", "\xff\xfe", strings.Repeat("n", 300)} {
+			list = append(list, []string{"HELLO", v, "SETNAME", name}, []string{"HELLO", v, "setname", name})
+		}
+		list = append(list, []string{"HELLO", v, "SETNAME"}, []string{"HELLO", v, "SETNAME", "a", "extra"}, []string{"HELLO", v, "AUTH", "default", "nopass"}, []string{"HELLO", v, "AUTH", "default"},
+			[]string{"HELLO", v, "AUTH", "u", "p", "SETNAME", "both"}, []string{"HELLO", v, "SETNAME", "both", "AUTH", "u", "p"}, []string{"HELLO", v, "SETNAME", "bad name", "AUTH", "u", "p"},
+			[]string{"HELLO", v, "NOSUCHOPTION"}, []string{"HELLO", v, "SETNAME", "x", "SETNAME", "y"}, []string{"HELLO", v, "SETNAME", "x", "SETNAME", "bad name"})
+	}
+	for _, v := range []string{"0", "1", "4", "-3", "x", "", "3.0", "03", " 3", "9223372036854775808"} {
+		list = append(list, []string{"HELLO", v}, []string{"HELLO", v, "SETNAME", "named"})
+	}
+	protoOf := func(cl *redisemu.VClient) int {
+		r, err := vm.Parse1(cl.Do("HGETALL", "kh"))
+		if err != nil {
+			return -1
+		}
+		if r.K == vm.KMap {
+			return 3
+		}
+		return 2
+	}
+	nameOf := func(cl *redisemu.VClient) string {
+		r, _ := vm.Parse1(cl.Do("CLIENT", "GETNAME"))
+		if r.K == vm.KNil {
+			return "(none)"
+		}
+		return r.S
+	}
+	for _, form := range list {
+		for _, before := range []int{2, 3} {
+			for _, named := range []bool{false, true} {
+				for _, otherProto := range []int{2, 3} {
+					forms++
+					redisemu.VResetGlobals()
+					var msg string
+					sched := verifrt.NewSched(nil)
+					done := false
+					sched.Run(func() {
+						vi := redisemu.VNew("")
+						other := vi.NewClient()
+						other.Do("HSET", "kh", "f", "1")
+						if otherProto == 3 {
+							other.Do("HELLO", "3")
+						}
+						cl := vi.NewClient()
+						if before == 3 {
+							cl.Do("HELLO", "3")
+						}
+						if named {
+							cl.Do("CLIENT", "SETNAME", "before")
+						}
+						p0, n0 := protoOf(cl), nameOf(cl)
+						raw := cl.Do(form...)
+						p1, n1 := protoOf(cl), nameOf(cl)
+						isErr := len(raw) > 0 && (raw[0] == '-' || raw[0] == '!')
+						want := 0
+						fmt.Sscanf(form[1], "%d", &want)
+						switch {
+						case p0 != before:
+							msg = fmt.Sprintf("set-up: the connection speaks RESP%d, expected %d", p0, before)
+						case isErr && p1 != p0:
+							msg = fmt.Sprintf("%v is refused (%s) but the connection now speaks RESP%d instead of RESP%d", quoteArgs(form), clipB(raw), p1, p0)
+						case isErr && n1 != n0:
+							msg = fmt.Sprintf("%v is refused (%s) but the connection's name changed from %q to %q", quoteArgs(form), clipB(raw), n0, n1)
+						case !isErr && want != 2 && want != 3: // "03", " 3": lenient number forms may be accepted
+							msg = fmt.Sprintf("%v is accepted (unsupported version): %s", quoteArgs(form), clipB(raw))
+						case !isErr && p1 != want:
+							msg = fmt.Sprintf("%v is accepted but the connection speaks RESP%d", quoteArgs(form), p1)
+						}
+						if msg == "" && !isErr {
+							// the reply itself is in the protocol that was asked for
+							if r, err := vm.Parse1(raw); err != nil || (want == 3) != (r.K == vm.KMap) {
+								msg = fmt.Sprintf("%v is accepted but its reply is not in RESP%d: %s", quoteArgs(form), want, clipB(raw))
+							}
+						}
+						if msg == "" && protoOf(other) != otherProto {
+							msg = fmt.Sprintf("%v on one connection changed the protocol of another connection (RESP%d before)", quoteArgs(form), otherProto)
+						}
+						done = true
+					})
+					if !done && msg == "" {
+						msg = fmt.Sprintf("%v: run ended with %s %v", quoteArgs(form), sched.Term, firstLine(fmt.Sprint(sched.PanicVal)))
+					}
+					if msg != "" {
+						bad++
+						opt := "plain"
+						if len(form) > 2 {
+							opt = strings.ToUpper(form[2])
+						}
+						kind := "other"
+						for _, k := range []string{"is refused", "name changed", "unsupported version", "accepted but the connection", "reply is not in", "another connection", "run ended"} {
+							if strings.Contains(msg, k) {
+								kind = strings.ReplaceAll(k, " ", "-")
+								if k == "is refused" && strings.Contains(msg, "now speaks") {
+									kind = "refused-but-protocol-changed"
+								}
+								break
+							}
+						}
+						rep.add(fmt.Sprintf("HELLO-form|%s|from-resp%d|%s", opt, before, kind), msg, map[string]any{"form": form, "protocol_before": before, "name_set_before": named})
+					}
+				}
+			}
+		}
+	}
+	return
 }
